@@ -264,27 +264,27 @@ end
 
 omit hext in
 mutual
-theorem shapeW_of_shapeOK : ∀ v : JV, Spec.WF.shapeOK {} v = true → shapeW v = true
+theorem shapeW_of_shapeOK (c : Spec.Canon.Cfg) (hc : c.ap = false) : ∀ v : JV, Spec.WF.shapeOK c v = true → shapeW v = true
   | .null, _ | .bool _, _ => rfl
   | .num n, h => by
     cases n <;> simp_all [shapeW, wfNumW, Spec.WF.shapeOK, Spec.WF.wfNum]
   | .str s, h => by simpa [shapeW, Spec.WF.shapeOK] using h
   | .arr xs, h => by
     simp only [shapeW, Spec.WF.shapeOK] at h ⊢
-    exact shapeWs_of_shapeOKs xs h
+    exact shapeWs_of_shapeOKs c hc xs h
   | .obj kvs, h => by
     simp only [shapeW, Spec.WF.shapeOK, Bool.and_eq_true] at h ⊢
-    exact shapeWm_of_shapeOKm kvs h.2
-theorem shapeWs_of_shapeOKs : ∀ xs : List JV, Spec.WF.shapeOKs {} xs = true → shapeWs xs = true
+    exact shapeWm_of_shapeOKm c hc kvs h.2
+theorem shapeWs_of_shapeOKs (c : Spec.Canon.Cfg) (hc : c.ap = false) : ∀ xs : List JV, Spec.WF.shapeOKs c xs = true → shapeWs xs = true
   | [], _ => rfl
   | x :: xs, h => by
     simp only [shapeWs, Spec.WF.shapeOKs, Bool.and_eq_true] at h ⊢
-    exact ⟨shapeW_of_shapeOK x h.1, shapeWs_of_shapeOKs xs h.2⟩
-theorem shapeWm_of_shapeOKm : ∀ kvs : List (Bytes × JV), Spec.WF.shapeOKm {} kvs = true → shapeWm kvs = true
+    exact ⟨shapeW_of_shapeOK c hc x h.1, shapeWs_of_shapeOKs c hc xs h.2⟩
+theorem shapeWm_of_shapeOKm (c : Spec.Canon.Cfg) (hc : c.ap = false) : ∀ kvs : List (Bytes × JV), Spec.WF.shapeOKm c kvs = true → shapeWm kvs = true
   | [], _ => rfl
   | (k, x) :: kvs, h => by
     simp only [shapeWm, Spec.WF.shapeOKm, Bool.and_eq_true] at h ⊢
-    exact ⟨⟨h.1.1, shapeW_of_shapeOK x h.1.2⟩, shapeWm_of_shapeOKm kvs h.2⟩
+    exact ⟨⟨h.1.1, shapeW_of_shapeOK c hc x h.1.2⟩, shapeWm_of_shapeOKm c hc kvs h.2⟩
 end
 
 /-- the values of the staged claim: representable without `arbitrary_precision`, no floats -/
